@@ -34,6 +34,7 @@ type c05Req struct {
 	Auth      string `json:"authorization"`
 	User      string `json:"user"` // "1".."9"
 	Probe     string `json:"host_probe"` // after a successful upgrade: own | other (channel request to the user's own / another user's host)
+	ConnID    string `json:"connection_id,omitempty"` // "" = fresh; otherwise an identifier that earlier (finished) requests of this case used, too
 }
 
 type c05Case struct {
@@ -53,6 +54,9 @@ func genC05(t *rapid.T) c05Case {
 	for i, n := 0, rapid.IntRange(1, 8).Draw(t, "nreq"); i < n; i++ {
 		r := c05Req{Transport: genKind(t), Method: "RDG_OUT_DATA", Auth: rapid.SampledFrom(c05Auths).Draw(t, "auth"), User: strconv.Itoa(rapid.IntRange(1, 9).Draw(t, "user")),
 			Probe: rapid.SampledFrom([]string{"own", "other"}).Draw(t, "probe")}
+		if rapid.IntRange(0, 2).Draw(t, "reuseID") == 0 {
+			r.ConnID = "{11111111-2222-3333-4444-555555555555}"
+		}
 		if rapid.IntRange(0, 5).Draw(t, "otherMethod") == 0 {
 			r.Method = rapid.SampledFrom([]string{"GET", "POST", "RDG_IN_DATA", "BREW"}).Draw(t, "method")
 		}
@@ -136,6 +140,15 @@ type httpHead struct {
 
 // rawExchange sends the requests one after the other on one connection and returns the response heads.
 // After a 101 or a legacy 200 the connection is returned open (conn != nil).
+var c05ConnID string // identifier for the requests of the case being run ("" = fresh one per request)
+
+func c05ID() string {
+	if c05ConnID != "" {
+		return c05ConnID
+	}
+	return sess.NewConnID()
+}
+
 func rawExchange(in *gwproc.Inst, method string, ws bool, auths [][]string) (heads []httpHead, conn net.Conn, br *bufio.Reader, seedOK bool, err error) {
 	c, err := gwc.Target{Addr: in.Addr, TLS: in.TLS}.Dial()
 	if err != nil {
@@ -144,7 +157,7 @@ func rawExchange(in *gwproc.Inst, method string, ws bool, auths [][]string) (hea
 	br = bufio.NewReader(c)
 	for _, a := range auths {
 		var sb strings.Builder
-		fmt.Fprintf(&sb, "%s %s HTTP/1.1\r\nHost: %s\r\nRdg-Connection-Id: %s\r\n", method, gwc.GatewayPath, in.Addr, sess.NewConnID())
+		fmt.Fprintf(&sb, "%s %s HTTP/1.1\r\nHost: %s\r\nRdg-Connection-Id: %s\r\n", method, gwc.GatewayPath, in.Addr, c05ID())
 		if ws {
 			sb.WriteString("Connection: Upgrade\r\nUpgrade: websocket\r\nSec-WebSocket-Version: 13\r\nSec-WebSocket-Key: dGhlIHNhbXBsZSBub25jZQ==\r\n")
 		}
@@ -251,6 +264,7 @@ func runC05(c c05Case) *Violation {
 	local, ntl, krb, openid := has(c.Subset, "local"), has(c.Subset, "ntlm"), has(c.Subset, "kerberos"), has(c.Subset, "openid")
 	for i, r := range c.Reqs {
 		ws := r.Transport == "ws"
+		c05ConnID = r.ConnID
 		pass := c05Password(r.User)
 		type1 := base64.StdEncoding.EncodeToString(ntlmx.Negotiate())
 		logBefore := svc.LogLen()
@@ -387,7 +401,8 @@ func runC05(c c05Case) *Violation {
 				if e.OK && e.Kind == "basic" && local && e.User == r.User && e.Password == pass {
 					confirmed = true
 				}
-				if e.OK && e.Kind == "ntlm" && ntl && e.Username == r.User {
+				// NTLM: the verdict must belong to the session of this very connection
+				if e.OK && e.Kind == "ntlm" && ntl && e.Username == r.User && e.Session == conn.LocalAddr().String() {
 					confirmed = true
 				}
 			}
@@ -459,7 +474,7 @@ func rawExchange2(in *gwproc.Inst, method string, ws bool, first string, next fu
 	var heads []httpHead
 	send := func(auth string) (httpHead, error) {
 		var sb strings.Builder
-		fmt.Fprintf(&sb, "%s %s HTTP/1.1\r\nHost: %s\r\nRdg-Connection-Id: %s\r\n", method, gwc.GatewayPath, in.Addr, sess.NewConnID())
+		fmt.Fprintf(&sb, "%s %s HTTP/1.1\r\nHost: %s\r\nRdg-Connection-Id: %s\r\n", method, gwc.GatewayPath, in.Addr, c05ID())
 		if ws {
 			sb.WriteString("Connection: Upgrade\r\nUpgrade: websocket\r\nSec-WebSocket-Version: 13\r\nSec-WebSocket-Key: dGhlIHNhbXBsZSBub25jZQ==\r\n")
 		}
